@@ -255,6 +255,14 @@ class Sim:
 
     def transmit(self, x, data, addr, now):
         peer = self.peer(x)
+        lose = self.cfg.get("lose_first_to_new_address")
+        if lose and x == "s" and addr != CLIENT_ADDR:
+            # the first datagram(s) the server sends to the client's new address are lost (they carry its PATH_CHALLENGE)
+            self.stats["dgram-to-new-address"] += 1
+            if self.stats["dgram-to-new-address"] <= lose:
+                self.stats["lost-first-to-new-address"] += 1
+                self.dropped_datagrams.append((x, now))
+                return
         mute = self.cfg.get("mute_client_after")
         if mute is not None and x == "c" and now < self.adv_end:
             # a client that falls silent (or whose address was spoofed) after its first datagrams
